@@ -12,7 +12,8 @@
    ever").  __iter__/__len__ are outside the property. *)
 From Coq Require Import String ZArith List Bool Arith.
 From SK Require Import Model.Skel Spec.Cache Model.Cache Proofs.CacheInv
-     Proofs.CacheSkel Proofs.CacheLin Gen.Skeleton.
+     Proofs.CacheSkel Proofs.CacheLin Proofs.CacheCheck Proofs.CacheTerm
+     Gen.Skeleton.
 Import ListNotations.
 Open Scope Z_scope.
 
@@ -120,6 +121,51 @@ Proof.
   - apply (wl_no_deadlock gen_sk W).
 Qed.
 
+(* ---- the executable checker used on observed histories is sound ------ *)
+(* T2-facing: every chronological history the harness accepts through
+   Spec.Cache.lin_ok (well-formed + lin_check) inside Coq is linearizable in
+   the Prop sense (an annotation with legal, bracketed points exists).
+   Completeness (linearizable -> lin_ok) is NOT proved; it is cross-checked
+   against the exact python checker on every history of every run. *)
+Theorem C19_checker_sound : forall chron,
+  lin_ok chron = true -> linearizable (rev chron).
+Proof. exact lin_ok_sound. Qed.
+
+(* ---- termination ------------------------------------------------------ *)
+(* every step that is taken consumes one unit of the work left (for any
+   compiler): a run in which every scheduled process was enabled is no longer
+   than the initial measure *)
+Theorem C19_step_consumes_work : forall C n s p s',
+  idle_beyond n s -> step C s p = Some s' ->
+  (measure C n s' + 1 = measure C n s)%nat.
+Proof. exact step_measure. Qed.
+
+Theorem C19_run_length_bounded : forall C progs sched,
+  all_enabled C (init progs) sched ->
+  (length sched <= measure C (length progs) (init progs))%nat.
+Proof. exact enabled_length_bound. Qed.
+
+Theorem C19_maximal_run_exists : forall C progs,
+  exists sched, maximal C (init progs) sched.
+Proof.
+  intros C progs.
+  apply (maximal_exists C (length progs) _ (init progs) (le_n _)
+                        (init_idle_beyond progs)).
+Qed.
+
+(* with no_deadlock: every maximal run (nobody can move any more) ends with
+   ALL processes finished, after exactly the initial measure of steps.
+   Fairness of the OS is only needed to say a maximal run is what happens. *)
+Theorem C19_every_maximal_run_completes : forall sk, well_locked sk = true ->
+  forall progs sched,
+    maximal (compile sk false) (init progs) sched ->
+    (forall p, finished (procs (run (compile sk false) (init progs) sched) p))
+    /\ length sched = measure (compile sk false) (length progs) (init progs).
+Proof.
+  intros sk W progs sched H.
+  apply maximal_run_completes; [apply compile_disciplined; exact W|exact H].
+Qed.
+
 (* ---- non-vacuity ----------------------------------------------------- *)
 Definition ex_progs : list (list op) :=
   [[OSet 1 5; OGet 1; OUnset 1]; [OGet 1; OBulk [(1, 7); (2, 8)]; OGet 2];
@@ -141,7 +187,9 @@ Example C19_example_run :
   length (responses ex_final) = 8%nat /\
   existsb (fun x => x =? -1) (fst (mrun C19_model (init ex_progs) (rr 100)))
     = true /\
-  lin_check (rev (erase (hist ex_final))) = true /\
+  lin_ok (rev (erase (hist ex_final))) = true /\
+  measure C19_model 3 (init ex_progs) = 86%nat /\
+  measure C19_model 3 ex_final = 0%nat /\
   In (1%nat, 0%nat, RVal (Some 5)) (responses ex_final) /\
   In (2%nat, 1%nat, RVal (Some 7)) (responses ex_final) /\
   In (1%nat, 2%nat, RVal (Some 8)) (responses ex_final).
@@ -213,5 +261,9 @@ Print Assumptions C19_real_time_order.
 Print Assumptions C19_no_deadlock.
 Print Assumptions C19_no_op_fails.
 Print Assumptions C19_current_code.
+Print Assumptions C19_checker_sound.
+Print Assumptions C19_run_length_bounded.
+Print Assumptions C19_maximal_run_exists.
+Print Assumptions C19_every_maximal_run_completes.
 Print Assumptions C19_legacy_unset_refuted.
 Print Assumptions C19_unlocked_refuted.
